@@ -3,11 +3,13 @@
 import json
 import socket
 import threading
+import time
 
 
 class RecServer:
-    def __init__(self, first_id=0, fault=None):
-        """fault = {"nth": k, "kind": "drop" | "garbage" | "wrong_kind" | "reset"} applied to the k-th enqueue_task"""
+    def __init__(self, first_id=None, fault=None):
+        """first_id: None = like gwf's own pool (b14ff27), ids count up from the current time in milliseconds.
+        fault = {"nth": k, "kind": "drop" | "garbage" | "wrong_kind" | "reset"} applied to the k-th enqueue_task"""
         self.fault = fault
         self.enqueues = 0
         self.srv = socket.socket()
@@ -17,7 +19,7 @@ class RecServer:
         self.log = []
         self.connections = 0
         self.tasks = {}
-        self.next = first_id
+        self.next = int(time.time() * 1000) if first_id is None else first_id
         self.stop = threading.Event()
         self.th = threading.Thread(target=self._serve, daemon=True)
         self.th.start()
